@@ -260,12 +260,12 @@ PROPS["C15"] = {
     "runner": "c15",
     "design_ref": "DESIGN.md §6 C15",
     "technique": "Lean 4 theorems over the admission model for every limiter configuration, arithmetic and arrival history: served ⇔ effective address exists and the limiter admits it; the limiter state moves only by its own enqueue on the effective address; connections without a valid header are closed unserved and are invisible to every other connection's verdict (history-deletion theorem by induction); the limiter's view is the (effective address, time) subsequence; call order and arguments instantiated at re-extracted facts; differential runs of the real Listener on loopback with PROXY v1/v2 headers from several peers",
-    "level_text": "Machine-checked proofs for every limiter configuration and arithmetic (reusing the C13 limiter model), every arrival history and both PROXY settings: a connection is served under address a exactly when its effective address is a (announced source with a valid header, the TCP peer for LOCAL/UNKNOWN headers or with PROXY off) and the limiter admits a; the limiter's successor state is its own enqueue result on a; an invalid header yields closed-unserved and leaves the limiter untouched; over whole histories the served/refused verdicts equal those of the history with all invalid-header connections deleted, and equal the limiter run on the sequence of effective addresses. The facts that the limiter is consulted with client_addr.ip() before Connection::new and that the connection receives that same address are re-extracted. Real runs: sequences of 4–14 connections from 127.0.0.1–3 with headers from a 14-entry menu (v1 TCP4/TCP6/UNKNOWN, v2 PROXY TCP4/TCP6/LOCAL, same source through different peers, IPv4-mapped IPv6, absent, malformed, unknown family, bad version, disabled version); each verdict (status reply / closed with zero bytes) and the address seen by the status adapter are compared with the model and with a second RateLimiter instance; optional login checks the address seen by authentication/filter/strategy adapters and inside the issued cookie.",
-    "level_note": "Trusted: Lean kernel; the PROXY parser (crate proxy-header) is outside the model — its verdict class per connection is recorded from the real parser and handed to the model; limiter window 3600 s so all arrivals share one window (the limiter's time behaviour is C13's subject).",
-    "lean_modules": ["Passage.Props.C15"],
+    "level_text": "Machine-checked proofs for every limiter configuration and arithmetic (reusing the C13 limiter model), every arrival history and both PROXY settings: a connection is served under address a exactly when its effective address is a (announced source with a valid header, the TCP peer for LOCAL/UNKNOWN headers or with PROXY off) and the limiter admits a; the limiter's successor state is its own enqueue result on a; an invalid header yields closed-unserved and leaves the limiter untouched; over whole histories the served/refused verdicts equal those of the history with all invalid-header connections deleted, and equal the limiter run on the sequence of effective addresses. For the header parser model: a first byte other than 'P' / CR is refused at once; a disabled version is refused; the v2 header a load balancer writes for TCP/IPv4 or TCP/IPv6 announces exactly its SOURCE octets and port for every address, port and trailing bytes; LOCAL announces nothing; the v1 line `PROXY TCP4 src dst sport dport CRLF` announces the parsed src and sport for every text std::net accepts. The facts that the limiter is consulted with client_addr.ip() before Connection::new and that the connection receives that same address are re-extracted. Real runs: sequences of 4–14 connections from 127.0.0.1–3 with headers from a 14-entry menu (v1 TCP4/TCP6/UNKNOWN, v2 PROXY TCP4/TCP6/LOCAL, same source through different peers, IPv4-mapped IPv6, absent, malformed, unknown family, bad version, disabled version); each verdict (status reply / closed with zero bytes) and the address seen by the status adapter are compared with the model and with a second RateLimiter instance; optional login checks the address seen by authentication/filter/strategy adapters and inside the issued cookie.",
+    "level_note": "Trusted: Lean kernel; the PROXY parser (crate proxy-header 0.1.2) is modelled (greeting, version gate, v2 command/family/length, v1 field splitting and decimal ports, 107-byte cap) and the model classifies the raw first segment of every connection itself; only std::net's text-to-address conversion for v1 is recorded from the real code and handed to the model; limiter window 3600 s (20 s through passage::start) so all arrivals share one window (the limiter's time behaviour is C13's subject).",
+    "lean_modules": ["Passage.Props.C15", "Passage.Props.C15Proxy"],
     "cases": {"quick": 40, "thorough": 1500},
     "rule": "random PROXY setting (on 3 in 4; allowed versions v1+v2 / v1 / v2), limiter off (1 in 5) or limit 1–3, 4–14 sequential connections each from one of three loopback peers with a header drawn from three hot menu entries (2 in 3) or the whole menu, 1 in 3 with a final full login; non-trivial = every history; distinct = distinct request lines",
-    "trusted_base": TB_LISTENER + ["crate proxy-header (verdict class per header recorded from the real parser)"],
+    "trusted_base": TB_LISTENER + ["std::net Ipv4Addr/Ipv6Addr::from_str (verdicts on the address texts recorded from the real code); crate proxy-header is modelled and compared on every connection's raw first segment"],
     "assumptions": ["connections arrive one after another (each verdict awaited) so the arrival order is defined"],
     "timeout": {"quick": 1800, "thorough": 14400},
 }
